@@ -43,6 +43,9 @@ type Compiler struct {
 	// Increments with each function compiled
 	funcIndex int
 
+	// position is the start of the node that is being compiled
+	position token.Position
+
 	// Source filename
 	filename string
 
@@ -207,7 +210,7 @@ func (c *Compiler) collectFunctionDeclarations(node ast.Node) error {
 				return c.formatError(fmt.Sprintf("function %q redefined", functionName), node.Token().StartPosition)
 			}
 			if _, err := c.current.symbols.InsertConstant(functionName); err != nil {
-				return err
+				return c.atPosition(err, node.Token().StartPosition)
 			}
 		}
 	}
@@ -216,6 +219,9 @@ func (c *Compiler) collectFunctionDeclarations(node ast.Node) error {
 
 // compile the given AST node and all its children.
 func (c *Compiler) compile(node ast.Node) error {
+	// Where the compiler is: for the errors of functions that are not handed
+	// a node (a jump that is too far, a table that is full)
+	c.position = node.Token().StartPosition
 	switch node := node.(type) {
 	case *ast.Nil:
 		if err := c.compileNil(); err != nil {
@@ -523,7 +529,7 @@ func (c *Compiler) compileVar(node *ast.Var) error {
 	}
 	sym, err := c.current.symbols.InsertVariable(name)
 	if err != nil {
-		return err
+		return c.atPosition(err, node.Token().StartPosition)
 	}
 	if c.current.parent == nil {
 		c.emit(op.StoreGlobal, sym.Index())
@@ -567,7 +573,7 @@ func (c *Compiler) compileMultiVar(node *ast.MultiVar) error {
 			name := names[i]
 			sym, err := c.current.symbols.InsertVariable(name)
 			if err != nil {
-				return err
+				return c.atPosition(err, node.Token().StartPosition)
 			}
 			if c.current.parent == nil {
 				c.emit(op.StoreGlobal, sym.Index())
@@ -712,7 +718,7 @@ func (c *Compiler) compileImport(node *ast.Import) error {
 		var err error
 		sym, err = c.current.symbols.InsertConstant(name)
 		if err != nil {
-			return err
+			return c.atPosition(err, node.Token().StartPosition)
 		}
 	}
 	if c.current.parent == nil {
@@ -725,7 +731,7 @@ func (c *Compiler) compileImport(node *ast.Import) error {
 
 func (c *Compiler) compileFromImport(node *ast.FromImport) error {
 	if len(node.Parents()) > 255 {
-		return fmt.Errorf("compile error: too many parents in from-import")
+		return c.formatError("too many parents in from-import", node.Token().StartPosition)
 	}
 	for _, parent := range node.Parents() {
 		c.emit(op.LoadConst, c.constant(parent.String()))
@@ -748,7 +754,7 @@ func (c *Compiler) compileFromImport(node *ast.FromImport) error {
 			var err error
 			sym, err = c.current.symbols.InsertConstant(alias)
 			if err != nil {
-				return err
+				return c.atPosition(err, node.Token().StartPosition)
 			}
 		}
 		if c.current.parent == nil {
@@ -842,7 +848,7 @@ func (c *Compiler) compileString(node *ast.String) error {
 
 	fragments := tmpl.Fragments()
 	if len(fragments) > math.MaxUint16 {
-		return fmt.Errorf("compile error: string template exceeded max fragment size")
+		return c.formatError("string template exceeded max fragment size", node.Token().StartPosition)
 	}
 
 	var expressionIndex int
@@ -885,11 +891,11 @@ func (c *Compiler) compileString(node *ast.String) error {
 
 func (c *Compiler) compilePipe(node *ast.Pipe) error {
 	if c.current.pipeActive {
-		return fmt.Errorf("compile error: invalid nested pipe")
+		return c.formatError("invalid nested pipe", node.Token().StartPosition)
 	}
 	exprs := node.Expressions()
 	if len(exprs) < 2 {
-		return fmt.Errorf("compile error: the pipe operator requires at least two expressions")
+		return c.formatError("the pipe operator requires at least two expressions", node.Token().StartPosition)
 	}
 	// Compile the first expression (filling TOS with the initial pipe value)
 	if err := c.compile(exprs[0]); err != nil {
@@ -908,7 +914,7 @@ func (c *Compiler) compilePipe(node *ast.Pipe) error {
 		case *ast.Call, *ast.ObjectCall:
 			c.current.pipeActive = true
 		case *ast.Pipe:
-			return fmt.Errorf("compile error: invalid nested pipe")
+			return c.formatError("invalid nested pipe", node.Token().StartPosition)
 		default:
 			c.current.pipeActive = false
 		}
@@ -974,7 +980,7 @@ func (c *Compiler) compileConst(node *ast.Const) error {
 	}
 	sym, err := c.current.symbols.InsertConstant(name)
 	if err != nil {
-		return err
+		return c.atPosition(err, node.Token().StartPosition)
 	}
 	if c.current.parent == nil {
 		c.emit(op.StoreGlobal, sym.Index())
@@ -1028,7 +1034,7 @@ func (c *Compiler) compileCall(node *ast.Call) error {
 	args := node.Arguments()
 	argc := len(args)
 	if argc > MaxArgs {
-		return fmt.Errorf("compile error: max args limit of %d exceeded (got %d)", MaxArgs, argc)
+		return c.formatError(fmt.Sprintf("max args limit of %d exceeded (got %d)", MaxArgs, argc), node.Token().StartPosition)
 	}
 	// The function expression and the arguments are ordinary expressions, also
 	// when this call is a stage of a pipe and is itself compiled to a partial:
@@ -1055,12 +1061,12 @@ func (c *Compiler) compileObjectCall(node *ast.ObjectCall) error {
 	expr := node.Call()
 	method, ok := expr.(*ast.Call)
 	if !ok {
-		return fmt.Errorf("compile error: invalid call expression")
+		return c.formatError("invalid call expression", node.Token().StartPosition)
 	}
 	args := method.Arguments()
 	argc := len(args)
 	if argc > MaxArgs {
-		return fmt.Errorf("compile error: max args limit of %d exceeded (got %d)", MaxArgs, argc)
+		return c.formatError(fmt.Sprintf("max args limit of %d exceeded (got %d)", MaxArgs, argc), node.Token().StartPosition)
 	}
 	// As in compileCall: the object and the arguments are ordinary expressions
 	pipeActive := c.current.pipeActive
@@ -1107,7 +1113,7 @@ func (c *Compiler) compileList(node *ast.List) error {
 	items := node.Items()
 	count := len(items)
 	if count > math.MaxUint16 {
-		return fmt.Errorf("compile error: list literal exceeds max size")
+		return c.formatError("list literal exceeds max size", node.Token().StartPosition)
 	}
 	for _, expr := range items {
 		if err := c.compile(expr); err != nil {
@@ -1132,7 +1138,7 @@ func (c *Compiler) compileMap(node *ast.Map) error {
 		case *ast.Ident:
 			c.emit(op.LoadConst, c.constant(k.String()))
 		default:
-			return fmt.Errorf("compile error: invalid map key type: %v", k)
+			return c.formatError(fmt.Sprintf("invalid map key type: %v", k), node.Token().StartPosition)
 		}
 		if err := c.compile(v); err != nil {
 			return err
@@ -1258,7 +1264,7 @@ func (c *Compiler) compileFunc(node *ast.Func) error {
 	// Add the parameter names to the symbol table
 	for _, arg := range node.Parameters() {
 		if _, err := code.symbols.InsertVariable(arg.Literal()); err != nil {
-			return err
+			return c.atPosition(err, node.Token().StartPosition)
 		}
 	}
 
@@ -1267,7 +1273,7 @@ func (c *Compiler) compileFunc(node *ast.Func) error {
 	// add the object value to the table.
 	if code.isNamed {
 		if _, err := code.symbols.InsertConstant(functionName); err != nil {
-			return err
+			return c.atPosition(err, node.Token().StartPosition)
 		}
 	}
 
@@ -1325,7 +1331,7 @@ func (c *Compiler) compileFunc(node *ast.Func) error {
 			var err error
 			funcSymbol, err = c.current.symbols.InsertConstant(functionName)
 			if err != nil {
-				return err
+				return c.atPosition(err, node.Token().StartPosition)
 			}
 		}
 		// Duplicate function on the stack, so that we ensure the function
@@ -1416,7 +1422,7 @@ func (c *Compiler) compileSetItem(node *ast.Assign) error {
 		case "/=":
 			c.emit(op.BinaryOp, uint16(op.Divide))
 		default:
-			return fmt.Errorf("compile error: unsupported compound assignment operator: %s", node.Operator())
+			return c.formatError(fmt.Sprintf("unsupported compound assignment operator: %s", node.Operator()), node.Token().StartPosition)
 		}
 	} else {
 		// Simple assignment
@@ -1475,7 +1481,7 @@ func (c *Compiler) compileCompoundSetItem(node *ast.Assign) error {
 	case "/=":
 		c.emit(op.BinaryOp, uint16(op.Divide))
 	default:
-		return fmt.Errorf("compile error: unsupported compound assignment operator: %s", node.Operator())
+		return c.formatError(fmt.Sprintf("unsupported compound assignment operator: %s", node.Operator()), node.Token().StartPosition)
 	}
 	// [container, index, result] -> [result, container, index], which is
 	// what StoreSubscr expects
@@ -1578,7 +1584,7 @@ func (c *Compiler) compileSetAttr(node *ast.SetAttr) error {
 		case token.SLASH_EQUALS:
 			c.emit(op.BinaryOp, uint16(op.Divide))
 		default:
-			return fmt.Errorf("compile error: unsupported compound assignment operator: %s", node.Token().Literal)
+			return c.formatError(fmt.Sprintf("unsupported compound assignment operator: %s", node.Token().Literal), node.Token().StartPosition)
 		}
 
 		// 4. Store the result back: [object, result] is swapped to the
@@ -1622,7 +1628,7 @@ func (c *Compiler) compileForRange(forNode *ast.For, names []string, container a
 	for _, name := range names {
 		sym, err := code.symbols.InsertVariable(name)
 		if err != nil {
-			return err
+			return c.atPosition(err, forNode.Token().StartPosition)
 		}
 		if code.symbols.IsGlobal() {
 			c.emit(op.StoreGlobal, sym.Index())
@@ -1697,14 +1703,14 @@ func (c *Compiler) compileForCondition(forNode *ast.For, condition ast.Expressio
 	for _, pos := range loop.breakPos {
 		delta := nopPos - pos
 		if delta > math.MaxUint16 {
-			return fmt.Errorf("compile error: loop code size exceeded limits")
+			return c.formatError("loop code size exceeded limits", forNode.Token().StartPosition)
 		}
 		c.changeOperand(pos, uint16(delta))
 	}
 	for _, pos := range loop.continuePos {
 		delta := jumpBackPos - pos
 		if delta > math.MaxUint16 {
-			return fmt.Errorf("compile error: loop code size exceeded limits")
+			return c.formatError("loop code size exceeded limits", forNode.Token().StartPosition)
 		}
 		c.changeOperand(pos, uint16(delta))
 	}
@@ -1837,7 +1843,7 @@ func (c *Compiler) compileFor(node *ast.For) error {
 	for _, pos := range loop.continuePos {
 		delta := continueDst - pos
 		if delta > math.MaxUint16 {
-			return fmt.Errorf("compile error: loop code size exceeded limits")
+			return c.formatError("loop code size exceeded limits", node.Token().StartPosition)
 		}
 		c.changeOperand(pos, uint16(delta))
 	}
@@ -1866,14 +1872,14 @@ func (c *Compiler) compileSimpleFor(node *ast.For) error {
 	for _, pos := range loop.breakPos {
 		delta := nopPos - pos
 		if delta > math.MaxUint16 {
-			return fmt.Errorf("compile error: loop code size exceeded limits")
+			return c.formatError("loop code size exceeded limits", node.Token().StartPosition)
 		}
 		c.changeOperand(pos, uint16(delta))
 	}
 	for _, pos := range loop.continuePos {
 		delta := jumpBackPos - pos
 		if delta > math.MaxUint16 {
-			return fmt.Errorf("compile error: loop code size exceeded limits")
+			return c.formatError("loop code size exceeded limits", node.Token().StartPosition)
 		}
 		c.changeOperand(pos, uint16(delta))
 	}
@@ -1905,7 +1911,7 @@ func (c *Compiler) compileForIn(node *ast.ForIn) error {
 	varName := node.Variable().Literal()
 	sym, err := code.symbols.InsertVariable(varName)
 	if err != nil {
-		return err
+		return c.atPosition(err, node.Token().StartPosition)
 	}
 	if code.symbols.IsGlobal() {
 		c.emit(op.StoreGlobal, sym.Index())
@@ -2006,7 +2012,7 @@ func (c *Compiler) calculateDelta(pos int) (uint16, error) {
 	instrCount := len(c.current.instructions)
 	delta := instrCount - pos
 	if delta > math.MaxUint16 {
-		return 0, fmt.Errorf("compile error: jump destination is too far away")
+		return 0, c.formatError("jump destination is too far away", c.position)
 	}
 	return uint16(delta), nil
 }
@@ -2160,7 +2166,7 @@ func (c *Compiler) compilePartial(call *ast.Call) error {
 	args := call.Arguments()
 	argc := len(args)
 	if argc > MaxArgs {
-		return fmt.Errorf("compile error: max args limit of %d exceeded (got %d)", MaxArgs, argc)
+		return c.formatError(fmt.Sprintf("max args limit of %d exceeded (got %d)", MaxArgs, argc), call.Token().StartPosition)
 	}
 	if err := c.compile(call.Function()); err != nil {
 		return err
@@ -2179,14 +2185,14 @@ func (c *Compiler) compilePartialObjectCall(node *ast.ObjectCall) error {
 	expr := node.Call()
 	method, ok := expr.(*ast.Call)
 	if !ok {
-		return fmt.Errorf("compile error: invalid call expression")
+		return c.formatError("invalid call expression", node.Token().StartPosition)
 	}
 	name := method.Function().String()
 	c.emit(op.LoadAttr, c.name(name))
 	args := method.Arguments()
 	argc := len(args)
 	if argc > MaxArgs {
-		return fmt.Errorf("compile error: max args limit of %d exceeded (got %d)", MaxArgs, argc)
+		return c.formatError(fmt.Sprintf("max args limit of %d exceeded (got %d)", MaxArgs, argc), node.Token().StartPosition)
 	}
 	if err := c.compileArgs(args); err != nil {
 		return err
@@ -2200,7 +2206,7 @@ func (c *Compiler) compilePartialObjectCall(node *ast.ObjectCall) error {
 func (c *Compiler) name(name string) uint16 {
 	index, ok := c.current.addName(name)
 	if !ok {
-		c.failure = fmt.Errorf("compile error: number of attribute names exceeded limits")
+		c.failure = c.formatError("number of attribute names exceeded limits", c.position)
 		return 0
 	}
 	return index
@@ -2209,7 +2215,7 @@ func (c *Compiler) name(name string) uint16 {
 func (c *Compiler) constant(obj any) uint16 {
 	code := c.current
 	if len(code.constants) >= math.MaxUint16 {
-		c.failure = fmt.Errorf("compile error: number of constants exceeded limits")
+		c.failure = c.formatError("number of constants exceeded limits", c.position)
 		return 0
 	}
 	code.constants = append(code.constants, obj)
@@ -2272,6 +2278,12 @@ func normalizeFunctionBlock(node *ast.Block) []ast.Node {
 		statements = append(statements, returnNil)
 	}
 	return statements
+}
+
+// atPosition gives an error of the symbol table, which knows no positions,
+// the position of the node that it is about.
+func (c *Compiler) atPosition(err error, pos token.Position) error {
+	return c.formatError(strings.TrimPrefix(err.Error(), "compile error: "), pos)
 }
 
 // formatError creates a detailed error message including file, line and column information
